@@ -100,7 +100,7 @@ def dstep (s : Unit) (toks : List String) : Unit × String :=
     | none => "bad-op"
   | ["rt", "range", r] =>
     match nrTok? r with
-    | some nr => rtOut nrOut (printNR nr) (optRes (parseNR (printNR nr)))
+    | some nr => rtOut nrOut (printNR nr) (optRes (parseNR (printNR nr))) ++ " v=" ++ boolStr (isValidNR true nr)
     | none => "bad-op"
   | ["rt", "dt", t] =>
     match t.toNat? with
